@@ -892,7 +892,10 @@ func (c *Canonicalizer) processBlock(block *ssa.BasicBlock) {
 			c.output.WriteString("  ; LoopHeader")
 			if loop.TripCount != nil {
 				// BUG FIX: Use renamer to ensure TripCount variables match the rest of the IR
-				c.output.WriteString(fmt.Sprintf(" TripCount: %s", loop.TripCount.StringWithRenamer(c.renamerFunc())))
+				// ... and capped like every other symbolic text: the bound of a trivial loop can be a
+				// tree of a thousand nodes whose leaves each render an enclosing counter's recurrence
+				// (400 KB for one header line, written again for every loop that shares the bound).
+				c.output.WriteString(fmt.Sprintf(" TripCount: %s", capSCEVText(loop.TripCount.StringWithRenamer(c.renamerFunc()))))
 			}
 			c.output.WriteString("\n")
 		}
